@@ -17,6 +17,9 @@ package main
 // non-zero value in a struct (given value or NOW) / given as nil in a map (NULL or NOW); values of zero-valued or
 // default-tagged or auto-time columns in created rows (C03's business); the primary key column of created rows;
 // when the write returns an error only the "never changes" demands are judged.
+// Updates(dto) with a value of a DIFFERENT struct type: columns the model's tags deny never change; columns only the
+// DTO's tags deny are latitude.  Map values may be SQL expressions (gorm.Expr("`col` + ?", 1000)): the cell must hold
+// old+1000 when the key is in the write set.  Select/Omit names are spelled as field name, column, `table.column`, `table.*`.
 // Explicit clause.OnConflict{DoUpdates} lists name permitted plain columns only: gorm passes caller-supplied
 // assignments through verbatim, they are not part of the write set gorm computes.
 
@@ -246,7 +249,7 @@ func c10Now(in c10Info) string {
 
 func c10Names(in c10Info, list []string) bool {
 	for _, n := range list {
-		if n == in.F.Name || n == in.Col {
+		if n == in.F.Name || n == in.Col || n == c10Table+"."+in.Col || n == "`"+in.Col+"`" {
 			return true
 		}
 	}
@@ -331,19 +334,27 @@ func c10Judge(e *c10E, r *Result) (verdict string, detail map[string]interface{}
 	if r != nil {
 		r.H("c10.e2e.error", fmt.Sprint(failed))
 	}
-	restricting := len(c.Selects) > 0 && !c10Has(c.Selects, "*")
-	selAll := c10Has(c.Selects, "*")
+	restricting := len(c.Selects) > 0 && !c10HasStar(c.Selects)
+	selAll := c10HasStar(c.Selects)
 	bad := func(format string, a ...interface{}) string { return fmt.Sprintf(format, a...) }
 
 	isUpdate := map[string]bool{"update1": true, "updcol1": true, "upd_map": true, "updcols_map": true, "upd_struct": true,
-		"updcols_struct": true, "upd_self": true, "save": true}[path]
+		"updcols_struct": true, "upd_self": true, "save": true, "upd_dto": true}[path]
+	// Updates(dto) with a DIFFERENT struct type: a column the MODEL's tag denies never changes; a column only the DTO's
+	// tag denies is latitude (the text speaks of "a field whose tag denies"; both fields carry a tag)
+	dtoDeny := map[string]bool{}
+	if path == "upd_dto" && c.Dto != nil {
+		for _, f := range c.Dto.Fields {
+			if _, du := c10TagPerm(f.Tag); du {
+				dtoDeny[f.Name] = true
+			}
+		}
+	}
 	if isUpdate {
 		if len(after.New) != 0 && path != "save" { // Save may legitimately create (it is an upsert)
 			return bad("an update inserted %d row(s)", len(after.New)), detail
 		}
 		self := path == "upd_self" || path == "save"
-		hooks := !(path == "updcol1" || path == "updcols_map" || path == "updcols_struct")
-		isMap := strings.HasSuffix(path, "_map") || path == "update1" || path == "updcol1"
 		modelPK := 0
 		if self {
 			modelPK = c10Int(c.Rows[0][pk.F.Name])
@@ -373,53 +384,12 @@ func c10Judge(e *c10E, r *Result) (verdict string, detail map[string]interface{}
 					}
 					continue
 				}
-				if failed {
+				if failed || dtoDeny[in.F.Name] {
 					continue
 				}
-				// predicted write set
-				var accept []string
-				inSet := false
-				omitted := c10Names(in, c.Omits)
-				selected := selAll || c10Names(in, c.Selects)
-				if in.PK && self {
-					inSet = false
-				} else if isMap {
-					v, isNil, ok := c10MapGiven(in, c.Map)
-					if ok && !omitted && (!restricting || selected) {
-						inSet = true
-						accept = []string{v}
-						if in.TrackU && hooks && isNil {
-							accept = []string{"<nil>", c10Now(in)}
-						}
-					}
-					if !inSet && in.TrackU && hooks && !omitted && !ok {
-						inSet, accept = true, []string{c10Now(in)}
-					}
-					if in.TrackU && hooks && ok && (omitted || (restricting && !selected)) {
-						continue // given explicitly but filtered by Select/Omit while hooks refresh it: the text does not decide
-					}
-				} else {
-					v, nonzero := c10Given(in, c.Rows[0])
-					switch {
-					case omitted:
-					case path == "save" && (!restricting || selected):
-						inSet, accept = true, []string{v}
-					case restricting || selAll:
-						if selected {
-							inSet, accept = true, []string{v}
-						}
-					default:
-						if nonzero {
-							inSet, accept = true, []string{v}
-						}
-					}
-					if in.TrackU && hooks && !omitted {
-						if inSet && nonzero {
-							accept = []string{v, c10Now(in)}
-						} else {
-							inSet, accept = true, []string{c10Now(in)}
-						}
-					}
+				inSet, accept, skip := c10PredictUpdate(in, c, path, self, was)
+				if skip {
+					continue
 				}
 				if inSet {
 					if !c10Has(accept, is) {
@@ -572,6 +542,65 @@ func c10Judge(e *c10E, r *Result) (verdict string, detail map[string]interface{}
 	return "", detail
 }
 
+// c10PredictUpdate: the write set the PROPERTY predicts for one column of a targeted row of an update path.
+// skip = the text does not decide this cell.  `was` = the cell before the write (for Expr values `col + 1000`).
+func c10PredictUpdate(in c10Info, c *c10Case, path string, self bool, was string) (inSet bool, accept []string, skip bool) {
+	restricting := len(c.Selects) > 0 && !c10HasStar(c.Selects)
+	selAll := c10HasStar(c.Selects)
+	hooks := !(path == "updcol1" || path == "updcols_map" || path == "updcols_struct" || path == "updcol_expr")
+	isMap := strings.HasSuffix(path, "_map") || path == "update1" || path == "updcol1" || path == "updcol_expr" || path == "upd_expr"
+	omitted := c10Names(in, c.Omits)
+	selected := selAll || c10Names(in, c.Selects)
+	if in.PK && self {
+		return false, nil, false
+	}
+	if isMap {
+		v, isNil, ok := c10MapGiven(in, c.Map)
+		if strings.HasPrefix(v, "expr:") {
+			v = fmt.Sprint(c10Int(json.Number(was)) + 1000)
+		}
+		if ok && !omitted && (!restricting || selected) {
+			inSet = true
+			accept = []string{v}
+			if in.TrackU && hooks && isNil {
+				accept = []string{"<nil>", c10Now(in)}
+			}
+		}
+		if !inSet && in.TrackU && hooks && !omitted && !ok {
+			inSet, accept = true, []string{c10Now(in)}
+		}
+		if in.TrackU && hooks && ok && (omitted || (restricting && !selected)) {
+			return false, nil, true // given explicitly but filtered by Select/Omit while hooks refresh it: the text does not decide
+		}
+		return inSet, accept, false
+	}
+	v, nonzero := c10Given(in, c.Rows[0])
+	switch {
+	case omitted:
+	case path == "save" && (!restricting || selected):
+		inSet, accept = true, []string{v}
+	case restricting || selAll:
+		if selected {
+			inSet, accept = true, []string{v}
+		}
+	default:
+		if nonzero {
+			inSet, accept = true, []string{v}
+		}
+	}
+	if in.TrackU && hooks && !omitted {
+		if inSet && nonzero {
+			accept = []string{v, c10Now(in)}
+		} else {
+			inSet, accept = true, []string{c10Now(in)}
+		}
+	}
+	return inSet, accept, false
+}
+
+// c10HasStar: "*" or "<table>.*"
+func c10HasStar(list []string) bool { return c10Has(list, "*") || c10Has(list, c10Table+".*") }
+
 func containsInt(l []int, x int) bool {
 	for _, y := range l {
 		if y == x {
@@ -581,11 +610,11 @@ func containsInt(l []int, x int) bool {
 	return false
 }
 
-var c10EPaths = []string{"update1", "updcol1", "upd_map", "upd_map", "updcols_map", "upd_struct", "upd_struct", "updcols_struct", "upd_self",
+var c10EPaths = []string{"update1", "updcol1", "upd_map", "upd_map", "updcols_map", "upd_struct", "upd_struct", "upd_dto", "updcols_struct", "upd_self",
 	"save", "save", "create", "create_slice", "create_batches", "create_map", "create_maps", "upsert_all", "upsert_slice", "upsert_cols", "save_slice"}
 
 func genC10E(rng *rand.Rand, r *Result) *c10E {
-	db := c10OpenDry()
+	db := c10ParseDB()
 	var s c10Sch
 	for {
 		s = genC10Schema(rng, false)
@@ -606,6 +635,10 @@ func genC10E(rng *rand.Rand, r *Result) *c10E {
 				out = append(out, "*")
 			case rng.Intn(2) == 0 || strings.HasPrefix(in.F.Tag, "-;") || in.F.Tag == "-" || strings.Contains(in.F.Tag, "-:all"):
 				out = append(out, in.F.Name)
+			case rng.Intn(5) == 0:
+				out = append(out, c10Table+"."+in.Col) // table.column spelling
+			case star && rng.Intn(12) == 0:
+				out = append(out, c10Table+".*")
 			default:
 				out = append(out, in.Col)
 			}
@@ -663,7 +696,13 @@ func genC10E(rng *rand.Rand, r *Result) *c10E {
 			rowpk = 40 + rng.Intn(5) // a struct value carrying another (fresh) key: "non-zero fields are written"
 		}
 		c.Rows = []c10Vals{c10GenVals(rng, s, rowpk, 50, 1)}
-		c.Map = c10GenMap(rng, sch, s, false, c.Path == "update1" || c.Path == "updcol1", 7, r)
+		if c.Path == "upd_dto" {
+			c.Dto = c10DtoOf(rng, s)
+			if _, _, err := c10Parse(db, *c.Dto); err != nil {
+				c.Path, c.Dto = "upd_struct", nil
+			}
+		}
+		c.Map = c10GenMap(rng, sch, s, false, c.Path == "update1" || c.Path == "updcol1", 7, r, true)
 	} else {
 		n := 1
 		if strings.Contains(c.Path, "slice") || c.Path == "create_batches" || c.Path == "upsert_cols" {
@@ -689,20 +728,20 @@ func genC10E(rng *rand.Rand, r *Result) *c10E {
 		sort.SliceStable(c.Rows, func(a, b int) bool {
 			return c10Int(c.Rows[a][s.Fields[0].Name]) < c10Int(c.Rows[b][s.Fields[0].Name])
 		})
-		c.Map = c10GenMap(rng, sch, s, false, false, 7, r)
+		c.Map = c10GenMap(rng, sch, s, false, false, 7, r, false)
 		if c.Path == "create_maps" {
 			for i, k := 0, 1+rng.Intn(3); i < k; i++ {
-				c.MapRows = append(c.MapRows, c10GenMap(rng, sch, s, false, false, 3+i, nil))
+				c.MapRows = append(c.MapRows, c10GenMap(rng, sch, s, false, false, 3+i, nil, false))
 			}
 		}
 		if upsert {
 			// keep the key in the INSERT so that the generated conflicts really conflict
-			if len(c.Selects) > 0 && !c10Has(c.Selects, "*") {
+			if len(c.Selects) > 0 && !c10HasStar(c.Selects) {
 				c.Selects = append(c.Selects, infos[0].Col)
 			}
 			om := []string{}
 			for _, o := range c.Omits {
-				if o != infos[0].Col && o != infos[0].F.Name {
+				if !c10Names(infos[0], []string{o}) {
 					om = append(om, o)
 				}
 			}
@@ -741,7 +780,7 @@ func c10F18Pattern(e *c10E, verdict string) bool {
 
 func c10F18Witness() *c10E {
 	return &c10E{CondIDs: []int{1}, Case: c10Case{Path: "save",
-		Schema: c10Sch{Fields: []c10F{{"ID", "uint", "primaryKey"}, {"Qty", "int", ""}}},
+		Schema: c10Sch{Fields: []c10F{{Name: "ID", Kind: "uint", Tag: "primaryKey"}, {Name: "Qty", Kind: "int"}}},
 		Rows:   []c10Vals{{"ID": 4, "Qty": 1011}}, Model: c10Vals{}}}
 }
 
@@ -765,6 +804,8 @@ func init() {
 		} else if tier == "search" {
 			n = 4000
 		}
+		t0 := time.Now()
+		defer func() { r.Note("c10 table-diff: n=%d took %.1fs", n, time.Since(t0).Seconds()) }()
 		for i := 0; i < n && !expired(); i++ {
 			e := genC10E(rng, r)
 			if i == 0 {
